@@ -10,6 +10,8 @@ func extraEngineFor(prop string, t *testing.T) Engine {
 		return multiEngine{engines: map[string]Engine{"compact": compactEngine{t}, "crash": crashEngine{}}, order: []string{"compact", "crash"}, weights: []int{3, 1}}
 	case "C10":
 		return chaosEngine{t}
+	case "C10R":
+		return raceEngine{}
 	case "C11":
 		return multiEngine{engines: map[string]Engine{"scan": scanEngine{t}, "seq": seqEngine{}}, order: []string{"scan", "seq"}, weights: []int{3, 1}}
 	case "C15":
